@@ -131,11 +131,24 @@ func checkC05(c *Ctx) {
 			continue
 		}
 		found := false
-		eachInstr(f, func(in ssa.Instruction) {
-			if call, ok := in.(*ssa.Call); ok && m.isAtomicLoadOf(call, m.Token) {
-				found = true
+		for _, g := range sortedFns(m.staticReach(f, false)) {
+			eachInstr(g, func(in ssa.Instruction) {
+				if call, ok := in.(*ssa.Call); ok && m.isAtomicLoadOf(call, m.Token) {
+					found = true
+				}
+			})
+		}
+		for _, b := range liveBlocks(f) {
+			if ret, ok := b.Instrs[len(b.Instrs)-1].(*ssa.Return); ok && b != f.Recover && len(ret.Results) == 1 {
+				o := m.Origins(returnValue(ret, 0))
+				if name == "Status" {
+					o = m.FieldOrigins(returnValue(ret, 0), "Token")
+				}
+				if o["field:"+m.Token] {
+					found = true
+				}
 			}
-		})
+		}
 		c.check(found, "R4", name+"() reads the token field", firstInstr(f), "loads %s: %v", m.path(m.Token), found)
 	}
 	if st := m.method("Status"); st != nil {
